@@ -6,6 +6,11 @@ import (
 )
 
 var vHarnesses = map[string]func(p []int){
+	"H_C02_runs":             func(p []int) { H_C02_runs(p[0]) },
+	"H_C02_runs_const":       func(p []int) { H_C02_runs_const(p[0], p[1]) },
+	"H_C02_runsdist":         func(p []int) { H_C02_runsdist(p[0]) },
+	"H_C02_selectParameters": func(p []int) { H_C02_selectParameters() },
+	"H_C02_longestrun":       func(p []int) { H_C02_longestrun(p[0], p[1]) },
 	"H_C01_monobit":        func(p []int) { H_C01_monobit(p[0]) },
 	"H_C01_monobit_bytes":  func(p []int) { H_C01_monobit_bytes(p[0]) },
 	"H_C01_selectM":        func(p []int) { H_C01_selectM() },
